@@ -294,3 +294,109 @@ def r3(cx):
             cx.violation(GETP, "gate", "%s: a chunk whose statistics may match every predicate is not pushed into the result (condition %s)" % (n["sp"], S.show(f)), [n["sp"]])
     if not gated:
         cx.violation(GETP, "gate", "no branch gating results.push on evaluate_against_stats found", [])
+
+
+CONV = "query::engine::QueryEngine::convert_expr_to_predicate"
+CMP_OPS = ["Eq", "NotEq", "Lt", "LtEq", "Gt", "GtEq"]
+
+
+@rule("C12", "R4", "the SQL -> statistics-predicate conversion over-approximates: each comparison operator maps to the predicate of the same name; a disjunction is "
+      "converted only when BOTH operands were (otherwise no predicate at all); a negated BETWEEN is never converted to Between")
+def r4(cx):
+    from engine import mir as M
+    h = cx.hir(CONV)
+    seen = {}
+    for n in H.walk(h["tree"]):
+        if n.get("k") != "match" or "Operator" not in (n.get("sty") or ""):
+            continue
+        for arm in n["arms"]:
+            for alt in H.pat_alts(arm["pat"]):
+                vp = H.pat_path(alt)
+                if not vp or not vp.split("::")[-2:-1] == ["Operator"]:
+                    continue
+                x = vp.rsplit("::", 1)[-1]
+                if x not in CMP_OPS:
+                    continue
+                t = H.tail(arm["body"]) if arm["body"].get("k") == "block" else arm["body"]
+                p, args = H.ctor_call(t)
+                y = None
+                if p and p.endswith("Some") and args:
+                    ip, _ = H.ctor_call(args[0])
+                    y = ip.rsplit("::", 1)[-1] if ip else None
+                elif H.path_of(t) and H.path_of(t).endswith("None"):
+                    y = "None"
+                seen.setdefault(x, []).append((y, arm["sp"]))
+    for x in CMP_OPS:
+        for (y, sp) in seen.get(x, []):
+            if y in (x, "None"):
+                cx.passed(CONV, "operator-table:%s" % x, [sp], "Operator::%s -> %s" % (x, y))
+            else:
+                cx.violation(CONV, "operator-table:%s" % x, "%s: SQL operator %s is converted to the statistics predicate %s: chunks holding matching rows are pruned" % (sp, x, y), [sp])
+    cx.floor("comparison operators with a conversion arm", len([x for x in CMP_OPS if x in seen]), 6, CONV)
+    # disjunction needs both operands
+    b = cx.body(CONV)
+    if b is None:
+        cx.violation(CONV, "anchor-missing:mir", "body not found", [])
+        return
+    or_edges = []
+    for bi, blk in enumerate(b.blocks):
+        t = blk["term"]
+        if t["k"] == "switch" and (t.get("enum") or "").endswith("Operator") and not blk.get("cleanup"):
+            for nme, tg in zip(t["variants"], t["targets"]):
+                if nme == "Or":
+                    or_edges.append((bi, tg))
+    if not or_edges:
+        cx.violation(CONV, "or-needs-both-operands", "convert_expr_to_predicate no longer distinguishes Operator::Or itself: the rule cannot see that a disjunction with an "
+                     "unconvertible operand yields no predicate (fail closed)", [])
+    rec = M.find_calls(b, lambda c: c == CONV)
+    exits = [e for e in M.exit_defs(b) if e[2] != "err"]
+    for (sb, tg) in or_edges:
+        region = b.reachable(tg) | {tg}
+        calls = [r for r in rec if r in region]
+        L = [r for r in calls if any(".left" in x[2] for x in M.operand_origins(b, b.term(r)["args"][0], at=(r, M.T)) if x[0] in ("arg", "call", "upvar"))]
+        R = [r for r in calls if any(".right" in x[2] for x in M.operand_origins(b, b.term(r)["args"][0], at=(r, M.T)) if x[0] in ("arg", "call", "upvar"))]
+        sl, sr = set(), set()
+        for r in L:
+            sl |= M.outcome_edges(b, r)[0]
+        for r in R:
+            sr |= M.outcome_edges(b, r)[0]
+        bad = None
+        for e in exits:
+            if e[0] not in region:
+                continue
+            for name, s in (("left", sl), ("right", sr)):
+                if not s or e[0] in (b.reachable(tg, removed_edges=s) | {tg}):
+                    bad = (e, name)
+        if bad:
+            cx.violation(CONV, "or-needs-both-operands", "%s: for `a OR b` a predicate can be returned although the %s operand was not converted: chunks whose rows match only "
+                         "that operand are pruned" % (b.sp(bad[0][0], bad[0][1]), bad[1]), [b.sp(sb), b.sp(bad[0][0], bad[0][1])])
+        else:
+            cx.passed(CONV, "or-needs-both-operands", [b.sp(sb)], "every Some exit on the Or edge follows successful conversion of .left and .right")
+    # every ColumnPredicate::Or built anywhere in the engine gets both operands from conversions
+    for k in cx.prog.fn_keys(r"^query::engine::"):
+        bb = cx.body(k)
+        if bb is None:
+            continue
+        for (bi, si, st) in M.aggregates(bb, lambda rv: rv.get("ak") == "adt" and rv.get("adt", "").endswith("predicates::ColumnPredicate") and rv.get("variant") == "Or"):
+            srcs = set()
+            for o in st["rv"]["ops"]:
+                for x in M.operand_origins(bb, o, at=(bi, si)):
+                    if x[0] == "call" and x[1][1] == CONV:
+                        srcs.add(x[1][0])
+            if len(srcs) >= 2:
+                cx.passed(k, "or-built-from-two-conversions", [bb.sp(bi, si)])
+            else:
+                cx.violation(k, "or-built-from-two-conversions", "%s: a ColumnPredicate::Or is assembled from operands that are not both conversion results in this function (the "
+                             "'operand missing' case is decided elsewhere, out of this rule's sight)" % bb.sp(bi, si), [bb.sp(bi, si)])
+    # negated BETWEEN
+    neg_false = set()
+    for sw in M.bool_switches(b):
+        r = sw["root"]
+        if r and r[2] == "assign" and r[3]["rv"]["k"] == "use" and r[3]["rv"]["o"]["k"] in ("copy", "move") and M.pl_str(r[3]["rv"]["o"]["pl"]).endswith(".negated"):
+            neg_false.add(sw["false_edge"])
+    for (bi, si, st) in M.aggregates(b, lambda rv: rv.get("ak") == "adt" and rv.get("adt", "").endswith("predicates::ColumnPredicate") and rv.get("variant") == "Between"):
+        if neg_false and b.dominated_by_edges(bi, neg_false):
+            cx.passed(CONV, "between-not-negated", [b.sp(bi, si)])
+        else:
+            cx.violation(CONV, "between-not-negated", "%s: `x NOT BETWEEN a AND b` is converted to Between(x, a, b): chunks lying entirely outside [a, b] - exactly the matching ones - are pruned"
+                         % b.sp(bi, si), [b.sp(bi, si)])
